@@ -31,7 +31,9 @@
 (* node whose kind does not fit the slot.                                   *)
 (*                                                                          *)
 (* The wiring is chosen node by node (action Wire) so that TLC's workers    *)
-(* share the enumeration; then the walker runs.                             *)
+(* share the enumeration; then the walker runs.  The walker itself is       *)
+(* picked in the initial state from the constant set Walkers, so that one   *)
+(* TLC run covers all mechanisms.                                           *)
 (*                                                                          *)
 (* Properties: Termination (<>Done under weak fairness; no state constraint *)
 (* is used, the counters saturate so that an endless walk is a cycle of the *)
@@ -41,7 +43,7 @@
 EXTENDS Naturals, Sequences, FiniteSets
 
 CONSTANTS N,          \* objects
-          Walker,     \* which mechanism
+          Walkers,    \* the mechanisms to check (a walker is picked in the initial state)
           MaxDepth,   \* limits.MaxExtractDepth / MaxOutlineDepth / MaxNameTreeDepth (256 in the code)
           MaxChain,   \* maxFilterChainLength (8 in the code)
           StackCap,   \* beyond this the Go stack is considered exhausted
@@ -52,7 +54,8 @@ Absent   == 0
 Dangling == N + 1
 Root     == N + 2
 
-VARIABLES kind, a, b,      \* the wiring
+VARIABLES Walker,          \* which mechanism this behaviour is about
+          kind, a, b,      \* the wiring
           wired,           \* nodes wired so far
           phase,           \* "wire" | "walk" | "done" | "overflow"
           start,           \* object the public call was made for
@@ -63,8 +66,8 @@ VARIABLES kind, a, b,      \* the wiring
           ret,             \* value being returned
           work,            \* object fetches so far (saturating at WorkCap)
           out              \* projection of the result: what the caller sees
-vars == <<kind, a, b, wired, phase, start, mode, cur, depth, stack, seen, ret, work, out>>
-wiring == <<kind, a, b>>
+vars == <<Walker, kind, a, b, wired, phase, start, mode, cur, depth, stack, seen, ret, work, out>>
+wiring == <<Walker, kind, a, b>>
 
 (* ------------------------------------------------------------------------ *)
 (* per-walker alphabet                                                      *)
@@ -122,7 +125,8 @@ Emit(o, x) == IF Len(o) <= N + 1 THEN Append(o, x) ELSE o
 (* enumeration of the wiring                                                *)
 (* ------------------------------------------------------------------------ *)
 NoFrame == <<>>
-Init == /\ kind = [n \in Nodes |-> "-"] /\ a = [n \in Nodes |-> 0] /\ b = [n \in Nodes |-> 0]
+Init == /\ Walker \in Walkers
+        /\ kind = [n \in Nodes |-> "-"] /\ a = [n \in Nodes |-> 0] /\ b = [n \in Nodes |-> 0]
         /\ wired = 0 /\ phase = "wire" /\ start = 0 /\ mode = "call"
         /\ cur = 0 /\ depth = 0 /\ stack = <<>> /\ seen = {} /\ ret = "-" /\ work = 0 /\ out = <<>>
 
@@ -132,7 +136,7 @@ Wire == /\ phase = "wire" /\ wired < N
               /\ a' = [a EXCEPT ![wired + 1] = x]
               /\ b' = [b EXCEPT ![wired + 1] = y]
         /\ wired' = wired + 1
-        /\ UNCHANGED <<phase, start, mode, cur, depth, stack, seen, ret, work, out>>
+        /\ UNCHANGED <<Walker, phase, start, mode, cur, depth, stack, seen, ret, work, out>>
 
 Finish(o) == /\ phase' = "done" /\ out' = o
 Overflow  == phase' = "overflow"
